@@ -19,6 +19,10 @@ type chunkReader struct {
 	// eofWithData: the read that delivers the last byte of the input returns (n, io.EOF) - what
 	// io.Reader explicitly allows - instead of reporting EOF on a separate empty read
 	eofWithData bool
+	// zeroEvery > 0: every zeroEvery-th call of Read delivers nothing and no error, (0, nil) - the
+	// extreme short read io.Reader permits; the model never sees these calls
+	zeroEvery int
+	reads     int
 }
 
 func (r *chunkReader) Size() int64 { return int64(len(r.data)) }
@@ -36,6 +40,10 @@ func (r *chunkReader) Read(p []byte) (int, error) {
 	avail := len(r.data) - int(r.pos)
 	w := len(p)
 	if w == 0 {
+		return 0, nil
+	}
+	r.reads++
+	if r.zeroEvery > 0 && r.reads%r.zeroEvery == 0 {
 		return 0, nil
 	}
 	c := w
@@ -68,10 +76,10 @@ func errClass(err error) string {
 }
 
 // runParserOps executes ops on the real parser; returns the verdict line and window line.
-func runParserOps(input []byte, chunks []int, ops []string, eofWithData bool) (string, string) {
+func runParserOps(input []byte, chunks []int, ops []string, eofWithData bool, zeroEvery int) (string, string) {
 	var outs, wins []string
 	res := guard(func() string {
-		p := parser.New(&chunkReader{data: input, chunks: chunks, eofWithData: eofWithData})
+		p := parser.New(&chunkReader{data: input, chunks: chunks, eofWithData: eofWithData, zeroEvery: zeroEvery})
 		for _, op := range ops {
 			var o string
 			var n int
@@ -179,6 +187,14 @@ func parserCase(c *Ctx, input []byte, chunks []int, ops []string) {
 	} else {
 		c.Stat("eof", "separate")
 	}
+	// likewise for reads that deliver nothing without an error
+	if c.Rng.Chance(1, 4) {
+		k := Pick(c.Rng, []int{2, 2, 3, 5})
+		args += fmt.Sprintf(" zero=%d", k)
+		c.Stat("zero-reads", fmt.Sprintf("every-%d", k))
+	} else {
+		c.Stat("zero-reads", "none")
+	}
 	nontriv := len(ops) >= 2 && len(input) > 0
 	v := c.Case(Verdict, "parser.ops", args, nontriv)
 	c.Case(Direct, "parser.spec", args, nontriv)
@@ -205,7 +221,11 @@ func init() {
 	areas["parser"] = areaParser
 	run := func(win bool) opFn {
 		return func(f Fields) string {
-			v, w := runParserOps(f.Hex("input"), f.Ints("chunks"), f.List("ops", ";"), f["eof"] == "data")
+			zero := 0
+			if f["zero"] != "" {
+				zero = f.Int("zero")
+			}
+			v, w := runParserOps(f.Hex("input"), f.Ints("chunks"), f.List("ops", ";"), f["eof"] == "data", zero)
 			if win {
 				return w
 			}
